@@ -25,7 +25,8 @@ impl IfElse {
         let condition_pair = inner.next().unwrap();
         let condition = InstructionWithStr::new(condition_pair, local_variables)?;
         let return_type = condition.return_type();
-        if return_type != Type::Bool {
+        // a condition of type `!` never yields a value, so it is (vacuously) a bool
+        if return_type != Type::Bool && return_type != Type::Never {
             return Err(Error::WrongCondition(condition.str, return_type));
         }
         let true_pair = inner.next().unwrap();
